@@ -299,7 +299,19 @@ func HarnessC14Malformed() {
 	if verifBool("groupby") {
 		q.GroupBy = []string{"a"}
 	}
-	req := &proto.QueryRequest{Queries: []*proto.Query{q}}
+	// the request around it: the query alone, no query at all (the empty message), or the query
+	// before/after a well-formed one
+	var req *proto.QueryRequest
+	switch verifChoice("request-shape", 4) {
+	case 0:
+		req = &proto.QueryRequest{Queries: []*proto.Query{q}}
+	case 1:
+		req = &proto.QueryRequest{}
+	case 2:
+		req = &proto.QueryRequest{Queries: []*proto.Query{q, {Expr: pEq("a", "x")}}}
+	default:
+		req = &proto.QueryRequest{Queries: []*proto.Query{{Expr: pEq("a", "x")}, q}}
+	}
 	// a panic here is the violation (grpc-go has no recovery: the process would die)
 	resp, err := s.Query(context.Background(), req)
 	verifAssert((err == nil) != (resp == nil), "C14: a request must be answered with a response or with an error")
